@@ -1069,11 +1069,25 @@ func Run(c Cell) Obs {
 	}
 	o := runOnce(c)
 	if suspicious(c, o) {
+		// the second look is there to keep a loaded machine from raising a false alarm; on a tree where cells block by
+		// the hundred (a sink that stays open) the verdict is settled long before, and every second look costs 3 ticks:
+		// after retryBudget confirmed-suspicious cells the first observation stands
+		if confirmed.Load() >= retryBudget {
+			return o
+		}
 		c.Tick *= 3
 		o = runOnce(c)
+		if suspicious(c, o) {
+			confirmed.Add(1)
+		}
 	}
 	return o
 }
+
+// retryBudget: number of cells that looked wrong twice after which a cell that looks wrong is no longer run a second time
+const retryBudget = 40
+
+var confirmed atomic.Int64
 
 func suspicious(c Cell, o Obs) bool {
 	if o.Construct != "" {
